@@ -14,3 +14,4 @@ INVARIANTS
   C03_MultiLower
   C03_MultiUpper
   C03_MultiNoneIfNoBest
+  C02_BestStreamReplays
